@@ -86,7 +86,16 @@ def erOracle (n : Nat) (p : F64) (o : Obs) : Option String :=
     else none
 
 def seedTag (s : UInt64) : String :=
-  if s == 0 then "seed0" else if s == 1 then "seed1" else if s.toNat + 3 ≥ 2^64 then "seed-wrap" else "seed-any"
+  if s == 0 then "seed0" else if s == 1 then "seed1" else if s.toNat + 17 ≥ 2^64 then "seed-wrap" else "seed-any"
+
+/-- is the FIRST draw of the seed's PRNG extreme (0, all ones, low 52 bits all zero / all one, or a
+`next_f64` value that is a dyadic `p` used by the generator: 1/2, 1/4, 3/4, 1/8, one ulp)? -/
+def drawTag (seed : UInt64) : String :=
+  let w := (xoTake seed 1).getD 0 0
+  let m := mant w
+  if w == 0 || w.toNat == 2^64 - 1 || m == 0 || m == 2^52 - 1 || m == 2^51 || m == 2^50 || m == 3 * 2^50 ||
+     m == 2^49 || m == 1 || m == 2^51 - 1 || m == 2^51 + 1 || w.toNat == 2^64 - 2
+  then "draw1-extreme" else "draw1-any"
 
 /-- how the rows are split over the workers (map variants): one row per worker (`n ≤ t`), all
 chunks full, last chunk short, or the loop `break`s before `t` workers were spawned -/
@@ -128,15 +137,24 @@ def allEq (xs : List V) : Bool :=
   | [] => true
   | x :: rest => rest.all (· == x)
 
+/-- Above this order the (list based, quadratic) tournament model is not run: the verdict is the
+property oracle on the implementation's output alone (tag `oracle-only`; stress-tier orders 768+). -/
+def modelLimit : Nat := 300
+
 def hTournament : Handler := fun t args obs =>
   match args with
   | [.a repr, n, seed] => do
     let n ← V.nat? n
     let seed ← seed? seed
+    let tags := ["tournament", repr, seedTag seed, drawTag seed]
+    if n > modelLimit then
+      let o ← obs.head?
+      let tt := if repr == "am" then [threadTag n t] else []
+      finish n obs o true false (tournamentOracle n) (tags ++ tt ++ ["oracle-only"])
+    else
     let draws := xoTake seed (n * n)
     let s := streamOfArray draws
     let al := optObs obsAL (tournamentAL s n)
-    let tags := ["tournament", repr, seedTag seed]
     match repr with
     | "am" =>
       let w := min n t
@@ -162,13 +180,22 @@ def hRrt : Handler := fun _ args obs =>
     let seed ← seed? seed
     let draws := xoTake seed n
     let s := streamOfArray draws
+    let tags := ["rrt", repr, seedTag seed, drawTag seed]
+    if n > modelLimit then
+      -- large orders (stress tier): only the requested model; the matrix model's observation is
+      -- quadratic in the block count, so `mx` is judged by the oracle alone
+      let m ← match repr with
+        | "al" => some (optObs obsAL (rrtAL s n)) | "am" => some (optObs obsAM (rrtAM s n))
+        | "el" => some (optObs obsEL (rrtEL s n)) | "mx" => obs.head? | _ => none
+      finish n obs m true false (rrtOracle n) (tags ++ (if repr == "mx" then ["oracle-only"] else []))
+    else
     let al := optObs obsAL (rrtAL s n)
     let am := optObs obsAM (rrtAM s n)
     let mx := optObs obsMX (rrtMX s n)
     let el := optObs obsEL (rrtEL s n)
     let m ← match repr with
       | "al" => some al | "am" => some am | "mx" => some mx | "el" => some el | _ => none
-    finish n obs m (allEq [al, am, mx, el]) false (rrtOracle n) ["rrt", repr, seedTag seed]
+    finish n obs m (allEq [al, am, mx, el]) false (rrtOracle n) tags
   | _ => none
 
 def pTag (p : F64) : String :=
@@ -189,7 +216,7 @@ def hEr : Handler := fun t args obs =>
       let draws := xoTake seed (n * n)
       let s := streamOfArray draws
       let al := optObs obsAL (erAL s n p)
-      let tags := ["er", repr, seedTag seed, pTag p]
+      let tags := ["er", repr, seedTag seed, drawTag seed, pTag p]
       let mustPanic := !p.inUnit
       match repr with
       | "am" =>
@@ -224,7 +251,7 @@ def hF64 : Handler := fun _ args obs =>
     let selfOk := arr.toList.all fun w =>
       F64.ofBits (UInt64.ofNat (f64BitsOfMant (mant w))) == .fin ((mant w : Int) * 2^1022)
     if !selfOk then pure (bad "f64 encoder self-check")
-    else pure (classify obs [model] pf (nt := k ≥ 1) ["f64", seedTag seed])
+    else pure (classify obs [model] pf (nt := k ≥ 1) ["f64", seedTag seed, drawTag seed])
   | _, _ => none
 
 def hU64 : Handler := fun _ args obs =>
